@@ -201,7 +201,11 @@ func vsToolRead(t *testing.T, ctx context.Context, s metadata.Store, admin *clie
 	for _, o := range offs {
 		olist = append(olist, []any{o.Group, o.Topic, o.Partition, o.Offset})
 	}
-	sort.Slice(olist, func(i, j int) bool { a, _ := json.Marshal(olist[i]); b, _ := json.Marshal(olist[j]); return string(a) < string(b) })
+	sort.Slice(olist, func(i, j int) bool {
+		a, _ := json.Marshal(olist[i])
+		b, _ := json.Marshal(olist[j])
+		return string(a) < string(b)
+	})
 	groups, graw := [][]any{}, []any{}
 	for _, g := range sc.Groups {
 		grp, err := s.FetchConsumerGroup(ctx, g)
@@ -458,6 +462,9 @@ func TestVerifStoreToolsReplay(t *testing.T) {
 					col["after"] = vsToolRead(t, ctx, side.store, side.admin, &s)
 				default:
 					t.Fatalf("unknown step %q", st.A)
+				}
+				if col["err"] == "other" {
+					t.Fatalf("infrastructure error: %s on the %s store failed (no verdict)", st.A, name)
 				}
 				line[name] = col
 			}
